@@ -273,19 +273,14 @@ func (m *BasicMutableWorld) AddFeature(f Feature) error {
 }
 
 func (m *BasicMutableWorld) AddTag(id b6.FeatureID, tag b6.Tag) error {
-	tokenAfter, indexedAfter := b6.TokenForTag(tag)
 	if f := m.features.FindMutableFeatureByID(id); f != nil {
-		var tokenBefore string
-		var indexedBefore bool
-		if before := f.Get(tag.Key); before.IsValid() {
-			if tokenBefore, indexedBefore = b6.TokenForTag(before); indexedBefore && (!indexedAfter || tokenBefore != tokenAfter) {
-				m.index.Remove(f, []string{tokenBefore})
-			}
-		}
+		// Changing one tag can change more tokens than that tag's own, since
+		// a point with a single tag isn't indexed at all.
+		before := TokensForFeature(WrapFeature(f, m))
 		f.ModifyOrAddTag(tag)
-		if indexedAfter && (!indexedBefore || tokenAfter != tokenBefore) {
-			m.index.Add(f, []string{tokenAfter})
-		}
+		added, removed := sortAndDiffTokens(before, TokensForFeature(WrapFeature(f, m)))
+		m.index.Remove(f, removed)
+		m.index.Add(f, added)
 		return nil
 	}
 	return fmt.Errorf("No feature with ID %s", id)
@@ -293,12 +288,11 @@ func (m *BasicMutableWorld) AddTag(id b6.FeatureID, tag b6.Tag) error {
 
 func (m *BasicMutableWorld) RemoveTag(id b6.FeatureID, key string) error {
 	if f := m.features.FindMutableFeatureByID(id); f != nil {
-		if tag := f.Get(key); tag.IsValid() {
-			if token, indexed := b6.TokenForTag(tag); indexed {
-				m.index.Remove(f, []string{token})
-			}
-		}
+		before := TokensForFeature(WrapFeature(f, m))
 		f.RemoveTag(key)
+		added, removed := sortAndDiffTokens(before, TokensForFeature(WrapFeature(f, m)))
+		m.index.Remove(f, removed)
+		m.index.Add(f, added)
 	}
 	return nil
 }
@@ -895,19 +889,15 @@ func (m *MutableOverlayWorld) AddFeature(f Feature) error {
 }
 
 func (m *MutableOverlayWorld) AddTag(id b6.FeatureID, tag b6.Tag) error {
-	tokenAfter, indexedAfter := b6.TokenForTag(tag)
+	_, indexedAfter := b6.TokenForTag(tag)
 	if f := m.features.FindMutableFeatureByID(id); f != nil {
-		var tokenBefore string
-		var indexedBefore bool
-		if before := f.Get(tag.Key); before.IsValid() {
-			if tokenBefore, indexedBefore = b6.TokenForTag(before); indexedBefore && (!indexedAfter || tokenBefore != tokenAfter) {
-				m.index.Remove(f, []string{tokenBefore})
-			}
-		}
+		// Changing one tag can change more tokens than that tag's own, since
+		// a point with a single tag isn't indexed at all.
+		before := TokensForFeature(WrapFeature(f, m))
 		f.ModifyOrAddTag(tag)
-		if indexedAfter && (!indexedBefore || tokenBefore != tokenAfter) {
-			m.index.Add(f, []string{tokenAfter})
-		}
+		added, removed := sortAndDiffTokens(before, TokensForFeature(WrapFeature(f, m)))
+		m.index.Remove(f, removed)
+		m.index.Add(f, added)
 	} else {
 		// Read the feature through this world, rather than directly from
 		// the base, so that tags already modified here are retained.
@@ -915,7 +905,9 @@ func (m *MutableOverlayWorld) AddTag(id b6.FeatureID, tag b6.Tag) error {
 		if base == nil {
 			return fmt.Errorf("No feature with ID %s", id)
 		}
-		if indexedAfter {
+		// A point with a single tag isn't indexed, and becomes searchable
+		// when it gains any other tag.
+		if indexedAfter || (id.Type == b6.FeatureTypePoint && len(base.AllTags()) == 1) {
 			f = NewFeatureFromWorld(base)
 			f.ModifyOrAddTag(tag)
 			m.features.AddFeature(f)
@@ -931,12 +923,11 @@ func (m *MutableOverlayWorld) AddTag(id b6.FeatureID, tag b6.Tag) error {
 
 func (m *MutableOverlayWorld) RemoveTag(id b6.FeatureID, key string) error {
 	if f := m.features.FindMutableFeatureByID(id); f != nil {
-		if tag := f.Get(key); tag.IsValid() {
-			if token, indexed := b6.TokenForTag(tag); indexed {
-				m.index.Remove(f, []string{token})
-			}
-		}
+		before := TokensForFeature(WrapFeature(f, m))
 		f.RemoveTag(key)
+		added, removed := sortAndDiffTokens(before, TokensForFeature(WrapFeature(f, m)))
+		m.index.Remove(f, removed)
+		m.index.Add(f, added)
 	} else {
 		// As for AddTag, read the feature through this world.
 		base := m.FindFeatureByID(id)
@@ -944,7 +935,8 @@ func (m *MutableOverlayWorld) RemoveTag(id b6.FeatureID, key string) error {
 			return fmt.Errorf("No feature with ID %s", id)
 		}
 		if tag := base.Get(key); tag.IsValid() {
-			if _, indexed := b6.TokenForTag(tag); indexed {
+			// A point left with a single tag is no longer searchable.
+			if _, indexed := b6.TokenForTag(tag); indexed || (id.Type == b6.FeatureTypePoint && len(base.AllTags()) == 2) {
 				f = NewFeatureFromWorld(base)
 				f.RemoveTag(key)
 				m.features.AddFeature(f)
